@@ -39,12 +39,18 @@ pub fn amp_violations(p: &StdPair) -> (Vec<(String, String)>, u64) {
     }
     for r in &p.w.recs {
         match r {
-            Rec::Emit { node, idx, data, dst, src, t, .. } => {
+            Rec::Emit { node, idx, data, dst, src, t, ch, .. } => {
                 emitted.insert(*idx, (*node, data.clone(), *src));
                 if *node != SERVER {
                     continue;
                 }
                 let _ = server_addr;
+                // stateless resets are the endpoint's answer to a datagram that no connection received
+                // (so it is in nobody's "received" sum); they have their own rule - smaller than the
+                // inciting datagram, rate-limited - judged by the stateless-response part
+                if ch.is_none() && data.first().map_or(false, |b| b & 0x80 == 0) {
+                    continue;
+                }
                 // remember path challenges sent to this address
                 for (_, frames) in decode(data, cid_len_of(&p.w, *dst)) {
                     for f in frames {
